@@ -135,11 +135,28 @@ def r1_ont(ctx, res):
 
 MUTATORS = {'append', 'extend', 'insert', 'add', 'update', 'setdefault', 'pop', 'popitem', 'remove', 'discard', 'clear',
             'sort', 'reverse', '__setitem__', '__delitem__'}
+MEMO_DECORATORS = {'lru_cache', 'cache', 'cached_property', 'memoize', 'memoized'}
 STATE_OK = {
     '_db.connect': 'the connection pool',
     '_config': 'configuration object (explicit user action)',
     '_download': 'download cache bookkeeping (explicit user action)',
 }
+
+
+def hidden_state_subset(ctx, res, modules, prefix):
+    """re-report (under another property) the hidden-state findings located in `modules`."""
+    from ..runtime import Result
+    tmp = Result('tmp')
+    r2_no_hidden_state(ctx, tmp)
+    n = 0
+    for i in tmp.instances:
+        if any(i.key.startswith(f'state:{m}.') for m in modules):
+            n += 1
+            res.inst(f'{prefix}:{i.key}', i.loc, i.desc)
+    for f in tmp.findings:
+        if any(f.key.startswith(f'state:{m}.') for m in modules):
+            res.find(f'{prefix}:{f.key}', f.loc, f.message)
+    return n
 
 
 def r2_no_hidden_state(ctx, res):
@@ -179,6 +196,11 @@ def r2_no_hidden_state(ctx, res):
                     nm = x.func.value.id
                     if nm in modnames and nm not in local:
                         bad.append((x, f'mutates module-level `{nm}` ({x.func.attr})'))
+            for dec in f.node.decorator_list:
+                dn = norm(dec.func if isinstance(dec, ast.Call) else dec).split('.')[-1]
+                if dn in MEMO_DECORATORS:
+                    bad.append((dec, f'is memoised with @{dn} (a process-wide cache keyed by its arguments: results survive add()/remove() '
+                                     f'and rowid reuse)'))
             res.inst(key, m.loc(f.node), 'no mutation of module-level state')
             for node, why in bad:
                 if f.key in STATE_OK or m.short in STATE_OK:
